@@ -1891,6 +1891,12 @@ impl Model for W {
                     } else {
                         None
                     }
+                } else if l == "@answers" {
+                    // answer whatever the plugin is asking right now (default answers only)
+                    match evs.first() {
+                        Some(e) if e.1.cost == 0 && e.1.label.starts_with("Answer(") => Some(0),
+                        _ => break,
+                    }
                 } else if l == "@stall-oldest" {
                     evs.iter().position(|e| e.1.label.starts_with("Stall("))
                 } else {
@@ -1912,7 +1918,7 @@ impl Model for W {
                     }
                 }
                 guard += 1;
-                if !l.starts_with("@default") || guard > 40 {
+                if !(l.starts_with("@default") || l == "@answers") || guard > 40 {
                     break;
                 }
             }
